@@ -1,10 +1,11 @@
 """C05 - graceful shutdown drains all submitted work and leaves nothing behind."""
-from .base import Prop, V, gen_knobs, gen_model, gen_task, submit_op, hang_violations
+from .base import focus_hot, Prop, V, gen_knobs, gen_model, gen_task, submit_op, hang_violations
 from . import execfam as X
 
 TIMEOUTS = [None, None, 0.0, 0.01, 0.05, 1.0, 10.0]
 MANAGER_LOOP = ["is_shutting_down", "process_result_item", "weakref_cb", "run", "add_call_item_to_queue",
-                "wait_result_broken_or_wakeup", "flag_executor_shutting_down", "shutdown", "_python_exit"]
+                "wait_result_broken_or_wakeup", "flag_executor_shutting_down", "shutdown", "_python_exit",
+                "_on_queue_feeder_error", "_feed", "shutdown_workers", "join_executor_internals"]
 
 
 def gen(rng, tier):
@@ -30,8 +31,16 @@ def gen(rng, tier):
             threads[th].append({"op": "wait_all"})
     if nthreads > 1:
         main.append({"op": "join_users"})
+    if rng.random() < 0.3:
+        # a late pickling error: the feeder's error path runs while the shutdown is in progress
+        ts, args = gen_task(rng, fid, ["bad_arg"], durs=(0,))
+        main.append(submit_op("A", fid, ts, args))
+        fid += 1
+        late = True
+    else:
+        late = False
     end = rng.choice(["wait", "wait", "nowait", "nowait", "with", "del", "del", "none", "nowait+wait"])
-    if rng.random() < (0.7 if end == "del" else 0.3):
+    if not late and rng.random() < (0.7 if end == "del" else 0.3):
         main.append({"op": "wait_all"})
     if rng.random() < 0.3:
         main.append({"op": "sleep", "d": rng.choice([0.001, 0.05, 0.5, 3.0])})
@@ -58,13 +67,14 @@ def gen(rng, tier):
     if rng.random() < 0.4:
         # the shutdown protocol lives in the manager loop: concentrate line pre-emption there
         kn["hot"] = {f: rng.choice([0.2, 0.5]) for f in rng.sample(MANAGER_LOOP, rng.randint(1, 2))}
+    kn = focus_hot(rng, kn, threads, p=0.5)
     return dict(family="shutdown", knobs=kn, model=gen_model(rng), threads=threads, faults=[],
                 hold_refs=rng.random() < 0.7, end=end)
 
 
 class C05(Prop):
     id = "C05"
-    quick_runs = 2000
+    quick_runs = 2500
     thorough_runs = 40000
     assumptions = ["no worker is killed in these scenarios; shutdown forms: explicit (waited or not), context "
                    "manager, del + collection, interpreter exit", "interpreter finalisation order is a model"]
